@@ -608,10 +608,20 @@ def expand(template_path, std=True):
                 assert e.endswith("}")
                 body = e[:-1] + "\n".join(appends) + "\n}"
                 g.log.rule("Rdrop: the implicit drop of a by-value `self: Unimock` at the end of the fn is made explicit")
+            expanded = []
             for (a, b, clet) in closures:
-                if body.count(a) != 1:
+                if a.startswith("*"):          # `*|x|` : annotate EVERY occurrence (identical closures)
+                    a = a[1:]
+                    if body.count(a) == 0:
+                        raise Undecided("lost anchor: closure <<<%s>>> not found in fn %s" % (a, name))
+                    expanded += [(a, b, clet, True)] * body.count(a)
+                else:
+                    expanded.append((a, b, clet, False))
+            search_from = 0
+            for (a, b, clet, multi) in expanded:
+                if not multi and body.count(a) != 1:
                     raise Undecided("lost anchor: closure <<<%s>>> matched %d times in fn %s" % (a, body.count(a), name))
-                p = body.index(a)
+                p = body.index(a, search_from) if multi else body.index(a)
                 q = p + len(a)
                 # closure body extends to the unbalanced ')' or a top-level ',' / ';'
                 k = q
@@ -632,7 +642,9 @@ def expand(template_path, std=True):
                         break
                     k += 1
                 cbody = body[q:k].strip()
-                body = body[:p] + b + " { " + clet + " " + cbody + " }" + body[k:]
+                replacement = b + " { " + clet + " " + cbody + " }"
+                body = body[:p] + replacement + body[k:]
+                search_from = p + len(replacement) if multi else 0
                 if clet:
                     g.log.rule("Rclosure: a closure parameter pattern becomes a variable + `let <pattern> = <variable>;` (Verus closures take variables only)")
                 g.log.rule("Rclosure: closure given typed parameters and an `ensures`; its body text is unchanged")
